@@ -13,6 +13,7 @@ import (
 	"fmt"
 	"strings"
 	"time"
+	"unicode/utf8"
 
 	pipeline "github.com/buildkite/go-pipeline"
 	"github.com/buildkite/go-pipeline/ordered"
@@ -223,7 +224,11 @@ func comparablePipeline(p *pipeline.Pipeline, jsonLeg bool) string {
 // ---- document rendering with style variety ----
 
 func renderStyles(r *core.Rand, doc any) ([]byte, string) {
-	switch r.Intn(4) {
+	switch r.Intn(5) {
+	case 4:
+		if b := renderAliased(r, doc); b != nil {
+			return b, "yaml-aliased"
+		}
 	case 0:
 		b, err := json.Marshal(doc)
 		if err == nil {
@@ -244,6 +249,120 @@ func renderStyles(r *core.Rand, doc any) ([]byte, string) {
 		return nil, "unrenderable"
 	}
 	return b, "yaml-block"
+}
+
+// renderAliased: block YAML in which one collection (or scalar) carries an anchor and is used again,
+// through plain aliases, as the value of extra keys of later step mappings, ancestors or the top level:
+// the decoded tree holds the expansion at every site.
+func renderAliased(r *core.Rand, doc any) []byte {
+	var root yaml.Node
+	if err := root.Encode(doc); err != nil {
+		return nil
+	}
+	top := &root
+	if top.Kind == yaml.DocumentNode && len(top.Content) == 1 {
+		top = top.Content[0]
+	}
+	type info struct {
+		n          *yaml.Node
+		pre, end   int
+		stepLike   bool
+		collection bool
+	}
+	var all []*info
+	idx := 0
+	var walk func(n *yaml.Node, stepLike bool) *info
+	walk = func(n *yaml.Node, stepLike bool) *info {
+		in := &info{n: n, pre: idx, stepLike: stepLike, collection: n.Kind == yaml.MappingNode || n.Kind == yaml.SequenceNode}
+		idx++
+		all = append(all, in)
+		switch n.Kind {
+		case yaml.MappingNode:
+			for i := 0; i+1 < len(n.Content); i += 2 {
+				idx++
+				isSteps := n.Content[i].Value == "steps" && n.Content[i+1].Kind == yaml.SequenceNode
+				if isSteps {
+					sub := &info{n: n.Content[i+1], pre: idx, collection: true}
+					idx++
+					all = append(all, sub)
+					for _, e := range n.Content[i+1].Content {
+						walk(e, e.Kind == yaml.MappingNode)
+					}
+					sub.end = idx
+				} else {
+					walk(n.Content[i+1], false)
+				}
+			}
+		case yaml.SequenceNode:
+			for _, e := range n.Content {
+				walk(e, false)
+			}
+		}
+		in.end = idx
+		return in
+	}
+	ti := walk(top, top.Kind == yaml.MappingNode)
+	if top.Kind == yaml.SequenceNode { // a bare list of steps
+		for _, in := range all {
+			if in.n.Kind == yaml.MappingNode {
+				for _, e := range top.Content {
+					if e == in.n {
+						in.stepLike = true
+					}
+				}
+			}
+		}
+	}
+	var cands []*info
+	for _, in := range all {
+		if in != ti && (in.collection && len(in.n.Content) > 0 || r.Intn(6) == 0) {
+			cands = append(cands, in)
+		}
+	}
+	if len(cands) == 0 {
+		return nil
+	}
+	a := cands[r.Intn(len(cands))]
+	var sites []*info
+	for _, in := range all {
+		if in.n.Kind != yaml.MappingNode || !(in.stepLike || r.Intn(4) == 0) {
+			continue
+		}
+		ancestor := in.pre < a.pre && in.end >= a.end
+		after := in.pre >= a.end
+		if ancestor || after {
+			sites = append(sites, in)
+		}
+	}
+	if len(sites) == 0 {
+		return nil
+	}
+	a.n.Anchor = "shared"
+	for k, uses := 0, 2+r.Intn(2); k < uses; k++ {
+		site := sites[r.Intn(len(sites))]
+		key := core.Pick(r, []string{"zz_alias", "agents", "retry", "notify", "build", "fields"})
+		dup := false
+		for i := 0; i+1 < len(site.n.Content); i += 2 {
+			if site.n.Content[i].Value == key {
+				dup = true
+			}
+		}
+		if dup {
+			key = fmt.Sprintf("zz_alias_%d", k)
+		}
+		site.n.Content = append(site.n.Content,
+			&yaml.Node{Kind: yaml.ScalarNode, Tag: "!!str", Value: key},
+			&yaml.Node{Kind: yaml.AliasNode, Alias: a.n, Value: "shared"})
+	}
+	b, err := yaml.Marshal(&root)
+	if err != nil {
+		return nil
+	}
+	var check yaml.Node
+	if yaml.Unmarshal(b, &check) != nil {
+		return nil
+	}
+	return b
 }
 
 func setFlow(n *yaml.Node) {
@@ -785,6 +904,33 @@ func c03CommandRules(c *ctx, desc map[string]any, i int, im, om vl.OMap, st *pip
 			}
 		}
 	}
+	// matrix / cache written as mappings: every key the typed form does not model survives, value intact
+	nested := func(field string, modelled map[string]bool, enabled bool) {
+		mv, ok := findKV(im, field)
+		mm, isMap := mv.(vl.OMap)
+		if !ok || !isMap || !enabled {
+			return
+		}
+		ov, _ := findKV(om, field)
+		omm, outIsMap := ov.(vl.OMap)
+		for _, kv := range mm {
+			if modelled[kv.K] {
+				continue
+			}
+			if !outIsMap {
+				fail(fmt.Sprintf("%s has the unknown key %q but is marshalled as a non-mapping (the key is lost)", field, kv.K), vl.Enc(ov), "", "")
+				return
+			}
+			got, ok := findKV(omm, kv.K)
+			if !ok {
+				fail(fmt.Sprintf("key %q inside %s is dropped by parse+marshal", kv.K, field), "", "", "")
+			} else if want := vl.Enc(jsonViewGo(kv.V)); vl.Enc(got) != want {
+				fail(fmt.Sprintf("value of key %q inside %s is changed by parse+marshal", kv.K, field), vl.Enc(got), want, "")
+			}
+		}
+	}
+	nested("matrix", map[string]bool{"setup": true, "adjustments": true}, st.Matrix != nil)
+	nested("cache", map[string]bool{"name": true, "paths": true, "size": true, "disabled": true}, st.Cache != nil && !st.Cache.Disabled)
 	// plugins: ordered list of single-entry objects keyed by canonical source, empty config as null
 	if pl, ok := findKV(om, "plugins"); ok {
 		l, _ := pl.([]any)
@@ -973,7 +1119,11 @@ func c13ByteLevel(c *ctx, rng *core.Rand, shards []*core.Session) {
 			if warns == nil {
 				warns = []any{}
 			}
-			if !strings.Contains(vl.Enc(treeV), "<go:") {
+			if enc := vl.Enc(treeV); !utf8.ValidString(enc) {
+				// the line protocol carries text: a document with raw non-UTF-8 bytes in a scalar is checked by
+				// the direct oracles only
+				c.res.Hist("bytes.non-utf8-not-sent-to-model")
+			} else if !strings.Contains(enc, "<go:") {
 				shards[i%len(shards)].Add(vl.Escape("parse "+vl.Enc(treeV)), vl.Escape("ok "+vl.Enc(dump.Pipeline(r.p))+" "+vl.Enc(warns)))
 			}
 		}
